@@ -127,6 +127,19 @@ var numStyles = []numStyle{
 		}
 		return t.Num().String() + "e-1", true
 	}),
+	jnStyle("json.Number.e+1", func(r *big.Rat) (string, bool) {
+		t := new(big.Rat).Quo(r, big.NewRat(10, 1))
+		if !t.IsInt() || r.Sign() == 0 {
+			return "", false
+		}
+		return t.Num().String() + "e+1", true
+	}),
+	jnStyle("json.Number.E+0", func(r *big.Rat) (string, bool) {
+		if !r.IsInt() {
+			return "", false
+		}
+		return r.Num().String() + "E+0", true
+	}),
 	// zero has further spellings: a sign, and a float64 negative zero
 	jnStyle("json.Number.-0", func(r *big.Rat) (string, bool) {
 		if r.Sign() != 0 {
